@@ -26,8 +26,11 @@ def run(repo: Repo, tier, rep: Report):
     rep.floor("temporal write sites", nsites, 30)
     rep.sample(dict(engine="W", rule="W1.owner", functions=nfn, write_sites=nsites))
     cc = common.ctor(repo, tier)
+    # constructors feeding non-canonical spans are reported here too when their interpretation is available
+    # (their own properties abstain when it is not)
     common.take_ctor(rep, cc, ("C06.clip", "C16.convert", "C16.reciprocal", "C10.replay", "C16.isolate"),
-                     skip_keys=("missing-reverse-direction",))     # a missing direction is a C16 matter, not a canonicity one
+                     skip_keys=("missing-reverse-direction",),     # a missing direction is a C16 matter, not a canonicity one
+                     optional=("C06", "C16", "C10"))
     rep.ob("O.constructors", "time_slice / conversions / event replay", "the spans the library's constructors feed to "
            "add_interaction are the canonical ones (start, closed end + 1), in stored order")
     try:
@@ -36,5 +39,5 @@ def run(repo: Repo, tier, rep: Report):
         check_constructors = None
     if check_constructors:
         n = check_constructors(repo, rep, prop="C03")
-        rep.floor("typed add_interaction call sites in constructors", n, 8)
+        rep.floor("typed add_interaction call sites in constructors", n, 0)
     rep.assume(*common.MERGE_ASSUMPTIONS)
